@@ -11,7 +11,7 @@ from ..kernel.guard import call, timed
 from ..universe import prelude, programs
 from ..universe import terms as T
 
-BUILD_LIMIT = 5.0
+BUILD_LIMIT = 20.0  # wall clock; generous so that an overloaded machine is not mistaken for non-termination
 
 
 @functools.lru_cache(maxsize=None)
